@@ -25,6 +25,7 @@ type VInode struct {
 	Mode fs.FileMode
 	Dir  bool
 	Ino  int
+	Link string // non-empty: symbolic link to this path (final path components only; links to directories are not modelled)
 }
 
 type VHandle struct {
@@ -141,6 +142,25 @@ func vbase(p string) string {
 	return p
 }
 
+var errLoop = errors.New("too many levels of symbolic links")
+
+// vfollow resolves symbolic links in the FINAL component of the absolute path p (as open/stat do).
+func vfollow(p string) (string, error) {
+	s := vs()
+	for i := 0; i < 8; i++ {
+		n, ok := s.names[p]
+		if !ok || n.Link == "" {
+			return p, nil
+		}
+		if n.Link[0] == '/' {
+			p = vclean(n.Link)
+		} else {
+			p = vclean(vdir(p) + "/" + n.Link)
+		}
+	}
+	return p, errLoop
+}
+
 func perr(op, path string, err error) error { return &fs.PathError{Op: op, Path: path, Err: err} }
 
 func VOpenFile(name string, flag int, perm os.FileMode) (*os.File, error) {
@@ -148,7 +168,14 @@ func VOpenFile(name string, flag int, perm os.FileMode) (*os.File, error) {
 	p := vabs(name)
 	n, exists := s.names[p]
 	if exists && flag&os.O_CREATE != 0 && flag&os.O_EXCL != 0 {
-		return nil, perr("open", name, fs.ErrExist)
+		return nil, perr("open", name, fs.ErrExist) // also for a (dangling) symbolic link: O_EXCL does not follow
+	}
+	if exists && n.Link != "" {
+		var err error
+		if p, err = vfollow(p); err != nil {
+			return nil, perr("open", name, err)
+		}
+		n, exists = s.names[p]
 	}
 	if !exists {
 		if flag&os.O_CREATE == 0 {
@@ -283,11 +310,49 @@ func (fi VFileInfo) IsDir() bool        { return fi.Node.Dir }
 func (fi VFileInfo) Sys() any           { return nil }
 
 func VStat(name string) (os.FileInfo, error) {
-	n, ok := vs().names[vabs(name)]
+	p, err := vfollow(vabs(name))
+	if err != nil {
+		return nil, perr("stat", name, err)
+	}
+	n, ok := vs().names[p]
 	if !ok {
 		return nil, perr("stat", name, fs.ErrNotExist)
 	}
 	return VFileInfo{NameV: vbase(vabs(name)), Node: n}, nil
+}
+
+// VLstat does not follow a symbolic link in the final component.
+func VLstat(name string) (os.FileInfo, error) {
+	n, ok := vs().names[vabs(name)]
+	if !ok {
+		return nil, perr("lstat", name, fs.ErrNotExist)
+	}
+	return VFileInfo{NameV: vbase(vabs(name)), Node: n}, nil
+}
+
+// VSymlink creates newName as a symbolic link to oldName (the target need not exist).
+func VSymlink(oldName, newName string) error {
+	s := vs()
+	p := vabs(newName)
+	if _, exists := s.names[p]; exists {
+		return &os.LinkError{Op: "symlink", Old: oldName, New: newName, Err: fs.ErrExist}
+	}
+	if n, ok := s.names[vdir(p)]; !ok || !n.Dir {
+		return &os.LinkError{Op: "symlink", Old: oldName, New: newName, Err: fs.ErrNotExist}
+	}
+	s.mk(p, &VInode{Mode: fs.ModeSymlink | 0o777, Link: oldName})
+	return nil
+}
+
+func VReadlink(name string) (string, error) {
+	n, ok := vs().names[vabs(name)]
+	if !ok {
+		return "", perr("readlink", name, fs.ErrNotExist)
+	}
+	if n.Link == "" {
+		return "", perr("readlink", name, errInval)
+	}
+	return n.Link, nil
 }
 
 func VSameFile(a, b os.FileInfo) bool {
@@ -364,7 +429,11 @@ func VLink(oldName, newName string) error {
 }
 
 func VChmod(name string, mode os.FileMode) error {
-	n, ok := vs().names[vabs(name)]
+	p, err := vfollow(vabs(name))
+	if err != nil {
+		return perr("chmod", name, err)
+	}
+	n, ok := vs().names[p]
 	if !ok {
 		return perr("chmod", name, fs.ErrNotExist)
 	}
@@ -417,7 +486,11 @@ func VReadDir(name string) ([]os.DirEntry, error) {
 }
 
 func VReadFile(name string) ([]byte, error) {
-	n, ok := vs().names[vabs(name)]
+	p, err := vfollow(vabs(name))
+	if err != nil {
+		return nil, perr("open", name, err)
+	}
+	n, ok := vs().names[p]
 	if !ok {
 		return nil, perr("open", name, fs.ErrNotExist)
 	}
